@@ -4,7 +4,7 @@ set -u
 P=$(realpath "$1"); shift
 cd /verif
 if [ -n "$(git -C /repo status --porcelain)" ]; then echo "/repo not clean"; exit 3; fi
-git -C /repo apply "$P" || { echo "patch does not apply"; exit 2; }
+git -C /repo apply "$P" 2>/dev/null || (cd /repo && patch -p1 --fuzz=3 -s < "$P" && find . -name "*.orig" -delete) || { echo "patch does not apply"; git -C /repo checkout -- .; exit 2; }
 PIDS="$@"
 if [ -z "$PIDS" ]; then PIDS=$(/venv/bin/python -c "import json;print(' '.join(c['property_id'] for c in json.load(open('/verif/MANIFEST.json'))['checks']))"); fi
 for pid in $PIDS; do
